@@ -42,6 +42,11 @@ type c15sCase struct {
 	Pass    string `json:"pass"`
 	Mail    string `json:"mail_from"`
 	From    string `json:"from_header"`
+	// Place: where check.authorize_sender is configured: "" = top level of the endpoint,
+	// "destination" = inside the destination block (its sender stage then runs at the first RCPT)
+	Place string `json:"check_placement,omitempty"`
+	// RcptTries: how often the client repeats RCPT TO after a refusal (1 = no retry)
+	RcptTries int `json:"rcpt_tries,omitempty"`
 }
 
 var c15sRegistered bool
@@ -54,15 +59,22 @@ func c15sRun(c c15sCase) (fp, detail, outcome string) {
 	}
 	ehT1.Reset()
 	ehT1.Fault = nil
-	endp, l, err := ehEndpoint("submission", []config.Node{
+	chk := config.Node{Name: "check", Children: []config.Node{{Name: "authorize_sender", Children: []config.Node{
+		{Name: "prepare_email", Args: []string{"identity"}},
+		{Name: "user_to_email", Args: []string{"identity"}},
+	}}}}
+	nodes := []config.Node{
 		{Name: "auth", Args: []string{"&vauth15"}},
 		{Name: "sasl_login", Args: []string{"yes"}},
-		{Name: "check", Children: []config.Node{{Name: "authorize_sender", Children: []config.Node{
-			{Name: "prepare_email", Args: []string{"identity"}},
-			{Name: "user_to_email", Args: []string{"identity"}},
-		}}}},
-		{Name: "deliver_to", Args: []string{"&vt1"}},
-	})
+	}
+	if c.Place == "destination" {
+		nodes = append(nodes,
+			config.Node{Name: "destination", Args: []string{"example.net"}, Children: []config.Node{chk, {Name: "deliver_to", Args: []string{"&vt1"}}}},
+			config.Node{Name: "default_destination", Children: []config.Node{{Name: "reject"}}})
+	} else {
+		nodes = append(nodes, chk, config.Node{Name: "deliver_to", Args: []string{"&vt1"}})
+	}
+	endp, l, err := ehEndpoint("submission", nodes)
 	if err != nil {
 		return "HARNESS:init", err.Error(), ""
 	}
@@ -100,7 +112,17 @@ func c15sRun(c c15sCase) (fp, detail, outcome string) {
 		return "C15:submission:authenticated-without-valid-credentials", strings.Join(log, "\n"), ""
 	}
 	accepted := false
-	if say("MAIL FROM:<"+c.Mail+">").Class() == 2 && say("RCPT TO:<rcpt@example.net>").Class() == 2 {
+	rcptOK := false
+	if say("MAIL FROM:<"+c.Mail+">").Class() == 2 {
+		tries := c.RcptTries
+		if tries < 1 {
+			tries = 1
+		}
+		for i := 0; i < tries && !rcptOK; i++ {
+			rcptOK = say("RCPT TO:<rcpt@example.net>").Class() == 2
+		}
+	}
+	if rcptOK {
 		if say("DATA").Code == 354 {
 			cl.write("From: <" + c.From + ">\r\nSubject: x\r\n\r\nhi\r\n.\r\n")
 			rep, _ := cl.read()
@@ -140,7 +162,7 @@ func c14b64x(s string) string { return base64.StdEncoding.EncodeToString([]byte(
 func TestVerifC15Submission(t *testing.T) {
 	r := vx.Start("C15", "submission")
 	defer r.Finish()
-	r.Rule("complete sessions on the real submission endpoint (real SASL layer, two-account provider, real check.authorize_sender with the identity mapping): AUTH {none, PLAIN with authorization identity absent / same / the other account / unknown, LOGIN} x credentials {right, wrong password; both accounts} x MAIL FROM {own, other account, outsider} x From {own, other account}; oracle: a message is accepted only if the account whose password was verified is entitled to the envelope sender and the author; without verified credentials nothing is accepted. Non-trivial: all cases")
+	r.Rule("complete sessions on the real submission endpoint (real SASL layer, two-account provider, real check.authorize_sender with the identity mapping): AUTH {none, PLAIN with authorization identity absent / same / the other account / unknown, LOGIN} x credentials {right, wrong password; both accounts} x MAIL FROM {own, other account, outsider} x From {own, other account} x check placed at the top level or inside the destination block (RCPT sent once or repeated after a refusal); oracle: a message is accepted only if the account whose password was verified is entitled to the envelope sender and the author; without verified credentials nothing is accepted. Non-trivial: all cases")
 	if rp := r.Replay(); rp != nil {
 		var c c15sCase
 		if json.Unmarshal(rp, &c) != nil || c.Mech == "" {
@@ -181,21 +203,29 @@ func TestVerifC15Submission(t *testing.T) {
 				if !r.Mine(idx) {
 					continue
 				}
-				c := c15sCase{Mech: a.mech, Authzid: a.authzid, User: a.user, Pass: a.pass, Mail: mf, From: fr}
-				fp, detail, oc := c15sRun(c)
-				r.Eval()
-				r.Nontrivial(vx.JSON(c))
-				if strings.HasPrefix(fp, "HARNESS:") {
-					r.HarnessError(fp + " " + detail)
-					return
-				}
-				if fp != "" {
-					r.Violation(fp, detail+"\ncase: "+vx.JSON(c), c)
-					continue
-				}
-				r.Outcome(oc)
-				if idx%17 == 0 {
-					r.Sample(c)
+				for _, pl := range []struct {
+					place string
+					tries int
+				}{{"", 1}, {"destination", 1}, {"destination", 3}} {
+					c := c15sCase{Mech: a.mech, Authzid: a.authzid, User: a.user, Pass: a.pass, Mail: mf, From: fr, Place: pl.place, RcptTries: pl.tries}
+					if pl.place != "" && !(a.mech == "PLAIN" && a.authzid == "" || a.mech == "none") {
+						continue // the placement variants go with the plain AUTH shapes
+					}
+					fp, detail, oc := c15sRun(c)
+					r.Eval()
+					r.Nontrivial(vx.JSON(c))
+					if strings.HasPrefix(fp, "HARNESS:") {
+						r.HarnessError(fp + " " + detail)
+						return
+					}
+					if fp != "" {
+						r.Violation(fp, detail+"\ncase: "+vx.JSON(c), c)
+						continue
+					}
+					r.Outcome(oc)
+					if idx%17 == 0 {
+						r.Sample(c)
+					}
 				}
 			}
 		}
